@@ -361,7 +361,9 @@ class DiffAlignment:
       return False
     if isinstance(old_value, Sequence) and len(old_value) != len(new_value):
       return False
-    if (not isinstance(old_value, (list, tuple, dict, config_lib.Buildable)) and
+    # Values that cannot be edited in place (e.g. tuples) are only aligned when
+    # they are equal: a diff could not change their elements.
+    if (not isinstance(old_value, (list, dict, config_lib.Buildable)) and
         old_value != new_value):
       return False
     return True
@@ -389,7 +391,7 @@ class DiffAlignment:
         raise AlignmentError(
             f'Aligning sequences with different lengths is not '
             f'currently supported.  ({len(old_value)} vs {len(new_value)})')
-    if (not isinstance(old_value, (list, tuple, dict, config_lib.Buildable)) and
+    if (not isinstance(old_value, (list, dict, config_lib.Buildable)) and
         old_value != new_value):
       raise AlignmentError(
           f'Values of type {type(old_value)} may only be aligned if they are '
